@@ -73,6 +73,9 @@ struct BitField {
     value: proc_macro2::TokenStream,
     field_type: types::Integer,
     shift: usize,
+    // The value is a bare `expr as type` cast: it must be parenthesized
+    // before it is shifted (`x as u8 << 4` does not parse).
+    is_cast: bool,
 }
 
 struct Encoder {
@@ -285,6 +288,7 @@ impl Encoder {
                     },
                     field_type: types::Integer::new(1),
                     shift,
+                    is_cast: false,
                 });
             }
             ast::FieldDesc::Scalar { id, width } => {
@@ -303,6 +307,7 @@ impl Encoder {
                     value: quote! { self.#field_id() },
                     field_type,
                     shift,
+                    is_cast: false,
                 });
             }
             ast::FieldDesc::FixedEnum { enum_id, tag_id, .. } => {
@@ -313,12 +318,18 @@ impl Encoder {
                     value: quote!(#field_type::from(#enum_id::#tag_id)),
                     field_type,
                     shift,
+                    is_cast: false,
                 });
             }
             ast::FieldDesc::FixedScalar { value, .. } => {
                 let field_type = types::Integer::new(width);
                 let value = proc_macro2::Literal::usize_unsuffixed(*value);
-                self.bit_fields.push(BitField { value: quote!(#value), field_type, shift });
+                self.bit_fields.push(BitField {
+                    value: quote!(#value),
+                    field_type,
+                    shift,
+                    is_cast: false,
+                });
             }
             ast::FieldDesc::Typedef { id, .. } => {
                 let id = id.to_ident();
@@ -327,6 +338,7 @@ impl Encoder {
                     value: quote!(#field_type::from(self.#id())),
                     field_type,
                     shift,
+                    is_cast: false,
                 });
             }
             ast::FieldDesc::Reserved { .. } => {
@@ -407,6 +419,7 @@ impl Encoder {
                     value: quote!((#array_size) as #field_type),
                     field_type,
                     shift,
+                    is_cast: true,
                 });
             }
             ast::FieldDesc::ElementSize { field_id, width, .. } => {
@@ -445,6 +458,7 @@ impl Encoder {
                     value: quote!(#field_element_size_name),
                     field_type,
                     shift,
+                    is_cast: false,
                 });
             }
             ast::FieldDesc::Count { field_id, width, .. } => {
@@ -470,6 +484,7 @@ impl Encoder {
                     value: quote!(self.#field_name.len() as #field_type),
                     field_type,
                     shift,
+                    is_cast: true,
                 });
             }
             _ => todo!("{field:?}"),
@@ -487,11 +502,13 @@ impl Encoder {
         let values = self
             .bit_fields
             .drain(..)
-            .map(|BitField { mut value, field_type, shift }| {
+            .map(|BitField { mut value, field_type, shift, is_cast }| {
                 if field_type.width != chunk_type.width {
                     // We will be combining values with `|`, so we
                     // need to cast them first.
                     value = quote! { (#value as #chunk_type) };
+                } else if is_cast && shift > 0 {
+                    value = quote! { (#value) };
                 }
                 if shift > 0 {
                     let op = quote!(<<);
